@@ -827,6 +827,13 @@ def its_level_failures(host, tpl, its, invert):
     rH, rq = totals(its)
     if (rH, rq) != (tH, tq):
         fails.append(("b", "hydrogen/charge change of the result (%d,%d) differs from the template's (%d,%d)" % (rH, rq, tH, tq)))
+    # (b) every ELEMENT count: no atom of the result may change its element unless an atom of the template does (audit-A1, finding 1:
+    # the product-side element was read by no clause)
+    if all(d["typesGH"][0][0] == d["typesGH"][1][0] for _, d in tpl.nodes(data=True)):
+        bad = [(n, d["typesGH"][0][0], d["typesGH"][1][0]) for n, d in its.nodes(data=True) if d["typesGH"][0][0] != d["typesGH"][1][0]]
+        if bad:
+            fails.append(("b", "element counts are not conserved: atom %r is %s on the substrate side and %s on the other side (no atom of the "
+                          "template changes its element)" % bad[0]))
     # (c) changed bonds = template's changed bonds
     A = changed_bond_graph(its)
     B = changed_bond_graph(tpl, sign)
